@@ -23,11 +23,12 @@ Inductive case :=
 | CM (readers : list rk) (ops : list mop) (obs : option (list obs))
 (** log provider *)
 | CL (procs : list lk) (ops : list lop) (obs : option (list obs))
-(** storm: [n] processors registered up front; goroutines concurrently call Shutdown (live
+(** storm: [late] = OnStart/OnEnd calls that reached any processor after the storm's Shutdown had returned
+    (spans from a pre-shutdown tracer and a span started before). [n] processors registered up front; goroutines concurrently call Shutdown (live
     context), Unregister of those processors, Register of [extra] further ones, and end spans.
     Observed afterwards: Shutdown calls per processor, whether a fresh tracer still records,
     error classes of a final ForceFlush and Shutdown. *)
-| CStorm (kinds : list pk) (n extra : N) (shutdowns xshutdowns : list N) (fresh_records : bool) (flush_err shutdown_err : err)
+| CStorm (kinds : list pk) (n extra : N) (shutdowns xshutdowns : list N) (late : N) (fresh_records : bool) (flush_err shutdown_err : err)
 (** one round of concurrent Shutdown / ForceFlush callers on a fresh LoggerProvider / MeterProvider *)
 | CStormL (procs : list lk) (pshut xshut : list N) (shut_errs flush_errs : list err)
 | CStormM (readers : list rk) (xshut : list N) (shut_errs flush_errs collect_after : list err).
@@ -77,7 +78,9 @@ Definition flag (b : bool) (code : N) : list N := if b then [] else [code].
 (** Storm judge (the property, on what is observable afterwards): every processor registered
     before the storm was shut down exactly once, those registered during it at most once;
     afterwards a fresh tracer does not record and ForceFlush / Shutdown return nil. *)
-Definition storm_ok (kinds : list pk) (n extra : nat) (shutdowns xshutdowns : list nat) (fresh_records : bool) (fe se : err) : bool :=
+Definition storm_ok (kinds : list pk) (n extra : nat) (shutdowns xshutdowns : list nat) (late : nat) (fresh_records : bool) (fe se : err) : bool :=
+  (* after Shutdown returned no processor is told about a span any more (from whatever tracer) *)
+  Nat.eqb late 0 &&
   Nat.eqb (length shutdowns) (n + extra) && Nat.eqb (length xshutdowns) (n + extra) && Nat.eqb (length kinds) (n + extra) &&
   forallb (fun c => Nat.eqb c 1) (firstn n shutdowns) &&
   forallb (fun c => Nat.leb c 1) (skipn n shutdowns) &&
@@ -131,8 +134,8 @@ Definition check_case (c : case) : list N :=
           flag (lspec_ok procs (map (fun x => (fst x, a_obs (snd x))) m)) V_MODELSPEC
       | _, _ => [V_MISMATCH; V_SPECFAIL]
       end
-  | CStorm kinds n extra sh xsh fr fe se =>
-      flag (storm_ok kinds (n2 n) (n2 extra) (map n2 sh) (map n2 xsh) fr fe se) V_SPECFAIL
+  | CStorm kinds n extra sh xsh late fr fe se =>
+      flag (storm_ok kinds (n2 n) (n2 extra) (map n2 sh) (map n2 xsh) (n2 late) fr fe se) V_SPECFAIL
   | CStormL procs ps xs se fe =>
       flag (lstorm_ok procs (map n2 ps) (map n2 xs) se fe) V_SPECFAIL
   | CStormM readers xs se fe ca =>
